@@ -44,7 +44,7 @@ FACTORIES = [("plain", dns.zone.Zone), ("versioned", dns.versioned.Zone), ("btre
 
 
 def shards(tier, seed):
-    mult = 1 if tier == "quick" else 12
+    mult = 1 if tier == "quick" else 16
     return [{"n": 60 * mult, "styles": 10} for _ in range(16)]
 
 
